@@ -258,14 +258,23 @@ def main():
         base_bodies = json.load(open(os.path.join(VERIF, 'contracts', 'baseline_bodies.json')))
     except Exception:
         base_bodies = {}
-    edited = {fn for fn, h in b.get('bodies', {}).items() if base_bodies.get(fn) != h}
+    def _bh(v, k):
+        return v[k] if isinstance(v, list) else (v if k == 0 else None)
+    edited = {fn for fn, h in b.get('bodies', {}).items() if _bh(base_bodies.get(fn), 0) != h[0]}
+    # control/call skeleton differs from the baseline (restructured loops, new or removed callees): the contract's
+    # proof text was written for another shape of the body
+    reshaped = {fn for fn, h in b.get('bodies', {}).items() if fn in edited and _bh(base_bodies.get(fn), 1) != h[1]}
     new_shape = []
     structural = []   # failures that leave P undecided by proof (bounded stand-in decides), never violations by themselves
     SEMANTIC = ('requires', 'ensures', 'const_ensures', 'closure_ensures', 'loop_ensures')
     for f in fails:
         dflt = list(props.fn_default_tags(b['contracts'], f['fn']) or [])
         sem, struct = set(), set()
-        if f['kind'] == 'clause' and f.get('explicit'):
+        if f['kind'] != 'clause' and f.get('pragma'):
+            # an obligation inside the ghost additions (lemmas relating the crate's tables/helpers to the model):
+            # it states the properties named by the `//@tags` pragma of that spec region
+            sem = set(f['pragma'])
+        elif f['kind'] == 'clause' and f.get('explicit'):
             sem = set(f['tags'])                       # the clause names the properties it states
         elif f['kind'] == 'clause' and f.get('ckind') in SEMANTIC:
             # a pre/postcondition without tags of its own states the function's properties; possible panics are
@@ -298,6 +307,11 @@ def main():
             mine.append(f)
         elif pid in struct:
             structural.append(f)
+        elif pid in dflt:
+            # modular verification: callers were checked against this function's contract, so a failed obligation
+            # in a function of this property's cone - even one that states another property - leaves this
+            # property's own proof incomplete: undecided by proof, the bounded stand-in decides
+            structural.append(dict(f, cone_only=True))
     # Arbiter: a failed clause that serves several properties (or sits in a function that does) is attributed by
     # the bounded native oracle when it can: if the oracle exhibits a failing input for ANOTHER property of the
     # same clause/function and none for this one, the failure is explained by that property and leaves this one
@@ -319,6 +333,20 @@ def main():
                 f = dict(f, explained_by=expl)
                 structural.append(f)
                 print('NOTE property=%s failed obligation %s is explained by the confirmed violation of %s (failing input found for it, none for %s)' % (pid, f.get('oid') or f['fn'], ','.join(expl), pid))
+            else:
+                keep.append(f)
+        mine = keep
+    # Restructured functions: when the control/call skeleton of a function changed (new helper without a contract,
+    # merged or re-nested loops) a failed obligation there first of all says that the proof text no longer fits -
+    # "a failed proof means undecided".  If the native oracle exhibits no failing input for this property, such a
+    # failure leaves it undecided by proof (bounded stand-in decides) instead of raising an unconfirmed alarm.
+    # Small edits that keep the skeleton (constants, operators, indices, bounds) stay violations in any case.
+    if confirmed is not None and pid not in confirmed and mine:
+        keep = []
+        for f in mine:
+            if f['fn'] in reshaped:
+                structural.append(dict(f, reshaped=True))
+                print('NOTE property=%s obligation %s failed in the restructured function %s and no failing input exists in the corpus: undecided by proof' % (pid, f.get('oid') or f['msg'], f['fn']))
             else:
                 keep.append(f)
         mine = keep
@@ -344,7 +372,7 @@ def main():
     unchecked = [f for f in cone_fns if f not in fr and f not in [x[0] for x in assumed]]
     unchecked += ['%s (%s)' % lw for lw in lost_here if lw[0] not in unchecked]
     for f in structural:
-        tool.append({'msg': ('new safety obligation in edited function not discharged: ' if f in new_shape else 'proof scaffolding (untagged invariant / proof step / safety side-condition) not discharged: ') + (f['oid'] or '') + ' ' + f['msg'], 'fn': f['fn'], 'line': f['line'], 'compile': False})
+        tool.append({'msg': ('obligation failed in a restructured function (proof text no longer fits), no failing input in the corpus: ' if f.get('reshaped') else 'a contract clause of another property failed in a function this property relies on: ' if f.get('cone_only') or f.get('explained_by') else 'new safety obligation in edited function not discharged: ' if f in new_shape else 'proof scaffolding (untagged invariant / proof step / safety side-condition) not discharged: ') + (f['oid'] or '') + ' ' + f['msg'], 'fn': f['fn'], 'line': f['line'], 'compile': False})
     forced_fns = set(V['forced'])
     unchecked += [f for f in cone_fns if f in forced_fns and f not in unchecked]
     tool_mine = [t for t in tool if t['fn'] is None or t['fn'] in cone_fns or t['fn'] not in {c_.name for c_ in b['contracts']}]
